@@ -90,7 +90,7 @@ func normaliseValidity(s string) string {
 }
 
 func runC19(res *Result, d *Driver, g *Rng, tier string) {
-	res.Rule = "durations from -1 s to 100 years: every unit boundary ±1 ns/±1 s (59 s/60 s, 59 m 59 s/1 h, 23 h 59 m 59 s/24 h, 30 d 23 h 59 m 59 s/31 d, 32 d, 365 d, 100 y), sub-second fractions, random durations, unparsable texts, texts beyond the range of a Duration in every unit (counts whose product with the unit wraps modulo 2^63, 2^64, 2^65 to 0, 10 s, 1 h, 1 day, 30 days, ±1), near-miss syntax; both forms; relative form on every whole minute below 31 days (thorough: every whole second); 'now' at random instants of 2000..2099 incl. leap days, year ends and sub-second parts; non-trivial = distinct (now, duration, form)"
+	res.Rule = "durations from -1 s to 100 years: every unit boundary ±1 ns/±1 s (59 s/60 s, 59 m 59 s/1 h, 23 h 59 m 59 s/24 h, 30 d 23 h 59 m 59 s/31 d, 32 d, 365 d, 100 y), sub-second fractions, random durations, unparsable texts, texts beyond the range of a Duration in every unit (counts whose product with the unit wraps modulo 2^63, 2^64, 2^65 to 0, 10 s, 1 h, 1 day, 30 days, ±1), near-miss syntax; both forms; relative form on every whole minute below 31 days (thorough: every whole second); 'now' at random instants of 2000..2099 incl. leap days, year ends and sub-second parts, and in zones with daylight-saving time shortly before each transition; non-trivial = distinct (now, duration, form)"
 	thorough := tier == "thorough"
 	var ops, goOut []string
 	day := 24 * time.Hour
@@ -152,6 +152,14 @@ func runC19(res *Result, d *Driver, g *Rng, tier string) {
 		time.Date(2024, 1, 1, 0, 0, 0, 0, time.UTC), time.Date(2024, 2, 28, 23, 59, 59, 999999999, time.UTC), time.Date(2000, 1, 1, 0, 0, 0, 0, time.UTC),
 		time.Date(2099, 12, 31, 23, 59, 59, 0, time.UTC), time.Date(2023, 12, 31, 12, 0, 0, 5, time.UTC), time.Date(2096, 2, 29, 6, 7, 8, 0, time.UTC),
 		time.Date(2024, 6, 30, 10, 0, 0, 0, time.FixedZone("X", 8*3600)),
+	}
+	// instants given in a zone with daylight-saving transitions, shortly before each transition: a day is then 23 or 25
+	// hours long on the wall clock, the requested duration is still that many seconds (skipped where no zone data exists)
+	for _, zn := range []string{"America/New_York", "Europe/Berlin", "Australia/Lord_Howe"} {
+		if loc, err := time.LoadLocation(zn); err == nil {
+			nows = append(nows, time.Date(2024, 3, 9, 12, 0, 0, 0, loc), time.Date(2024, 11, 2, 12, 0, 0, 0, loc), time.Date(2024, 3, 30, 12, 30, 0, 0, loc),
+				time.Date(2024, 10, 26, 23, 59, 59, 0, loc), time.Date(2024, 4, 6, 12, 0, 0, 0, loc), time.Date(2024, 10, 5, 12, 0, 0, 0, loc))
+		}
 	}
 	for i := 0; i < 12; i++ {
 		nows = append(nows, time.Unix(946684800+int64(g.U64()%(100*365*86400)), int64(g.U64()%1e9)).UTC())
